@@ -782,8 +782,23 @@ pub fn run_c17(ctx: &Ctx, pool: &[PoolKey]) {
 			}
 			ctx.count(&format!("eval:import:{}", wl));
 			ctx.sample(|| format!("{}#{}: {}", wl, i, crate::util::clip(&text, 500)));
+			// every third random case is issued by another CA and carries an authority key identifier
+			let issuer_key = locals[((i / 3) % locals.len() as u64) as usize];
+			let issued = wl == "random" && i % 3 == 0;
+			if issued {
+				spec.use_aki = true;
+			}
 			let r = crate::guard(|| -> Result<(), String> {
-				let cert = spec.to_rcgen(None).self_signed(&key.kp).map_err(|e| format!("generation failed: {}", e))?;
+				let cert = if issued {
+					let mut ispec = ParamSpec::minimal();
+					ispec.is_ca = IsCaSpec::Ca(None);
+					ispec.subject = vec![AttrSpec { ty: DnTy::Cn, kind: StrKind::Utf8, text: "c17 issuer".into() }];
+					ispec.kid = [KidSpec::Sha256, KidSpec::Sha384, KidSpec::Pre(vec![7; 20])][(i % 9 / 3) as usize].clone();
+					let ica = ispec.to_rcgen(None).self_signed(&issuer_key.kp).map_err(|e| format!("issuer generation failed: {}", e))?;
+					spec.to_rcgen(None).signed_by(&key.kp, &ica, &issuer_key.kp).map_err(|e| format!("generation failed: {}", e))?
+				} else {
+					spec.to_rcgen(None).self_signed(&key.kp).map_err(|e| format!("generation failed: {}", e))?
+				};
 				let view = x509::parse_certificate(cert.der()).map_err(|e| format!("derx: {}", e))?;
 				let imp = match CertificateParams::from_ca_cert_der(cert.der()) {
 					Ok(p) => p,
